@@ -1,4 +1,5 @@
 import GenjaxModel.Proofs.GfiRegen
+import GenjaxModel.Proofs.GfiValues
 /-!
 # C04 — regenerate resamples exactly the selection and returns the MH weight
 -/
@@ -73,3 +74,94 @@ theorem C04_scan_regenerate_asis_undefined (g : GF) (n : Nat) (steps : TrL R) (c
   simp [GF.regenerate, Cfg.asis]
 
 end Genjax
+
+/-! ==============================================================================================
+    BEGIN work package `gfivalues`: the VALUES held by the regenerated trace and by the discard
+    (helper lemmas: Model/GfiPaths.lean, Proofs/GfiValues*.lean; notation as in Props/C03.lean).
+    `Sel.selectedPath s p`: the selection `s` selects the address `p` — the remainder of the
+    selection is threaded along the dictionary keys of `p` with `Sel.matchAddr` exactly as the
+    Regenerate handler does, lane / step indices do not consume it, the decision is `() in s` at the
+    leaf.
+    ============================================================================================== -/
+namespace Genjax
+variable {R : Type} [AddCommGroup R] (P : Prims R) (cfg : Cfg)
+
+/-- Every address the selection does not select keeps its value bit-identically (as an `Option`: it
+    also stays present / absent), provided no Cond switched branch — EVERY program (dist, fn, vmap,
+    scan, cond at any depth), every selection expression, every (new) arguments, every `cfg`.
+    `hcan`: the old trace has the shape the operations build (`C04_ops_canonical`). -/
+theorem C04_regenerate_unselected_unchanged (g : GF) (t : Tr R) (s : Sel) (args : List Val)
+    (t' : Tr R) (w : R) (d : Option CM) (h : g.regenerate P cfg t s args = some (t', w, d))
+    (hcan : g.Canon t) (hs : Tr.sameChecks t t')
+    (y y' : CM) (hy : t.choices = some y) (hy' : t'.choices = some y')
+    (p : Path) (hp : s.selectedPath p = false) : y'.leafAt p = y.leafAt p :=
+  regenerate_unselected_unchanged P cfg g t s args t' w d h hcan hs y y' hy hy' p hp
+
+/-- `regenerate` neither adds nor removes addresses -/
+theorem C04_regenerate_leaf_domain (g : GF) (t : Tr R) (s : Sel) (args : List Val)
+    (t' : Tr R) (w : R) (d : Option CM) (h : g.regenerate P cfg t s args = some (t', w, d))
+    (hcan : g.Canon t) (y y' : CM) (hy : t.choices = some y) (hy' : t'.choices = some y')
+    (p : Path) : (y'.leafAt p).isSome = (y.leafAt p).isSome :=
+  regenerate_leaf_domain P cfg g t s args t' w d h hcan y y' hy hy' p
+
+/-- Repaired `Cond.regenerate` (`cfg.condDiscardVisible`): the discard holds the old visible value
+    of EXACTLY the selected (resampled) addresses — at a selected address the old value, at every
+    other path nothing.  Every program, selection, arguments; also across Cond branch switches. -/
+theorem C04_regenerate_discard_selected (hdv : cfg.condDiscardVisible = true)
+    (g : GF) (t : Tr R) (s : Sel) (args : List Val)
+    (t' : Tr R) (w : R) (d : Option CM) (h : g.regenerate P cfg t s args = some (t', w, d))
+    (hcan : g.Canon t) (y y' : CM) (hy : t.choices = some y) (hy' : t'.choices = some y')
+    (p : Path) : CM.leafAt? d p = if s.selectedPath p then y.leafAt p else none :=
+  regenerate_discard_selected P cfg hdv g t s args t' w d h hcan y y' hy hy' p
+
+/-- non-vacuity on `condExDeep` (Scan of a Cond, Vmap of a Cond of a Cond), sampler depending on
+    the arguments, new arguments that keep the Cond checks, selection `("s","x") | ("v","y")`:
+    the hypotheses of the three theorems hold (`regenScen_spec`); the unselected `s/0/y` and `v/1/x`
+    keep 13 and 46, the selected `s/0/x` changes from 11 to 5, and the discard holds 11 at `s/0/x`
+    and nothing at `s/0/y`. -/
+example : ∃ s, regenScen valExP Cfg.spec condExDeep condExDeepArgs valExSel valExArgs3 = some s ∧
+    (Tr.sameChecksB s.t s.t' &&
+     !(valExSel.selectedPath [.key "s", .idx 0, .key "y"]) &&
+     decide (s.y.leafAt [.key "s", .idx 0, .key "y"] = some (.num 13)) &&
+     decide (s.y'.leafAt [.key "s", .idx 0, .key "y"] = some (.num 13)) &&
+     !(valExSel.selectedPath [.key "v", .idx 1, .key "x"]) &&
+     decide (s.y.leafAt [.key "v", .idx 1, .key "x"] = some (.num 46)) &&
+     decide (s.y'.leafAt [.key "v", .idx 1, .key "x"] = some (.num 46)) &&
+     valExSel.selectedPath [.key "s", .idx 0, .key "x"] &&
+     decide (s.y.leafAt [.key "s", .idx 0, .key "x"] = some (.num 11)) &&
+     decide (s.y'.leafAt [.key "s", .idx 0, .key "x"] = some (.num 5)) &&
+     decide (CM.leafAt? s.d [.key "s", .idx 0, .key "x"] = some (.num 11)) &&
+     decide (CM.leafAt? s.d [.key "s", .idx 0, .key "y"] = none)) = true :=
+  (Option.any_eq_true _ _).mp (by decide +kernel)
+
+/-- Every value visible at a SELECTED address of the regenerated trace is the sampler's draw
+    `P.draw d params` for the Distribution `d` at that address and the parameters `params` that the
+    program computes from the NEW trace's own values under the new arguments (`GF.siteAt`) — a fresh
+    draw from the conditional prior given the (possibly new) values it depends on.  Every program
+    (Cond at any depth, also across branch switches), every selection, arguments, `cfg`. -/
+theorem C04_regenerate_selected_are_draws (g : GF) (t : Tr R) (s : Sel) (args : List Val)
+    (t' : Tr R) (w : R) (d : Option CM) (h : g.regenerate P cfg t s args = some (t', w, d))
+    (y' : CM) (hy' : t'.choices = some y') (p : Path) (hp : s.selectedPath p = true)
+    (v : Val) (hv : y'.leafAt p = some v) :
+    ∃ d0 ps, g.siteAt args t' p = some (d0, ps) ∧ v = P.draw d0 ps :=
+  regenerate_selected_are_draws P cfg g t s args t' w d h y' hy' p hp v hv
+
+/-- non-vacuity: in the scenario above the selected `s/2/x` (step 2 of the Scan of a Cond) is
+    Distribution 1 with the NEW carry 3 as parameter and holds its draw 7 (it held 13); the selected
+    `v/1/y` is Distribution 5 with parameter 5 and holds 13 -/
+example : ∃ s, regenScen valExP Cfg.spec condExDeep condExDeepArgs valExSel valExArgs3 = some s ∧
+    (valExSel.selectedPath [.key "s", .idx 2, .key "x"] &&
+     decide (s.y.leafAt [.key "s", .idx 2, .key "x"] = some (.num 13)) &&
+     decide (s.y'.leafAt [.key "s", .idx 2, .key "x"] = some (.num 7)) &&
+     decide (condExDeep.siteAt valExArgs3 s.t' [.key "s", .idx 2, .key "x"] = some (1, [.num 3])) &&
+     decide (valExP.draw 1 [.num 3] = .num 7) &&
+     valExSel.selectedPath [.key "v", .idx 1, .key "y"] &&
+     decide (s.y'.leafAt [.key "v", .idx 1, .key "y"] = some (.num 13)) &&
+     decide (condExDeep.siteAt valExArgs3 s.t' [.key "v", .idx 1, .key "y"]
+       = some (5, [.num 5]))) = true :=
+  (Option.any_eq_true _ _).mp (by decide +kernel)
+
+end Genjax
+/-! ==============================================================================================
+    END work package `gfivalues`
+    ============================================================================================== -/
